@@ -207,6 +207,17 @@ def run_case(case, rec, ssj=None, counter=None):
         for _ in range(rng.choice([1, 1, 2, 4])):
             s = gen.nextafter(s, rng.choice([-1e300, 1e300]))
         call['threshold'] = s
+    elif fl and r < 0.21 and all(isinstance(s, (int, float)) and s == s and abs(s) != float('inf') for s in scores):
+        # an exact rational / decimal next to an attained score (1/3.0 is not Fraction(1, 3)); Python
+        # compares a float with a Fraction or Decimal exactly
+        import decimal
+        import fractions
+        s = rng.choice(fl)
+        if abs(s) < 1e6:
+            call['threshold'] = rng.choice([fractions.Fraction(s).limit_denominator(12),
+                                            decimal.Decimal(repr(round(s, 3))), fractions.Fraction(s)])
+        else:
+            call['threshold'] = s
     elif scores and r < 0.7:
         call['threshold'] = rng.choice(scores)
     else:
